@@ -1,5 +1,15 @@
-(* Write-level view of the two-file protocol (trial file, then oracle.json; the tuner saves again after end_trial)
-   and what BaseTuner.__init__ / Oracle.reload rebuild from a directory left by a crash between two writes. *)
+(* C08: write-level view of the persistence protocol and of what a restarted process rebuilds.
+   Files: one trial file per trial (trial.json), oracle.json, the tuner file. Every save_json is one atomic write.
+   Protocol of the current source:
+     search start      : oracle.json, tuner file
+     create (new trial): trial file, oracle.json
+     create (retry)    : oracle.json
+     update_trial      : trial file
+     end_trial         : trial file, oracle.json (ended trial still listed as ongoing), then - unless end_trial raised -
+                         BaseTuner.on_trial_end saves again: oracle.json, tuner file
+   Restart (BaseTuner.__init__, overwrite=False): reload iff the tuner file exists. Oracle.reload reads every trial file,
+   then oracle.json; trial files whose id is not in start_order are leftovers of a create_trial that never completed and are
+   ignored; ongoing trials are queued for retry unless their file says they ended or they are queued already. *)
 From Coq Require Import List ZArith Bool Lia PeanoNat.
 Import ListNotations.
 From KT Require Import Lifecycle.
@@ -24,6 +34,7 @@ Definition to_json (s : ost) : ojson :=
      j_runs := map (@t_runs V Sc) (trials s); j_algo := algo s |}.
 
 Record dstate := { ds_trials : list dtrial; ds_oracle : option ojson; ds_tuner : bool }.
+Definition empty_dir : dstate := {| ds_trials := []; ds_oracle := None; ds_tuner := false |}.
 
 Inductive write := WTrial (id : tid) (d : dtrial) | WOracle (j : ojson) | WTuner.
 
@@ -41,15 +52,12 @@ Definition apply_write (d : dstate) (w : write) : dstate :=
   | WTuner => {| ds_trials := ds_trials d; ds_oracle := ds_oracle d; ds_tuner := true |}
   end.
 
-Variable pop_before_save : bool.    (* false: pinned source *)
-
-(* the writes one call performs, in order, given the state before and after it;
-   `tuner_save` adds BaseTuner.on_trial_end's own save() after a normally returning end_trial *)
 Definition with_ongoing (s : ost) (og : list (tuner * tid)) : ost :=
   {| trials := trials s; ongoing := og; start_order := start_order s; end_order := end_order s;
      retryq := retryq s; tuner_ids := tuner_ids s; algo := algo s; disk := disk s |}.
 
-Definition writes_of (c : cfg) (s : ost) (o : @op V) (s' : ost) (r : @resp V) : list write :=
+(* the writes one oracle call (plus the tuner's own save after a normally returning end_trial) performs, in order *)
+Definition writes_of (s : ost) (o : @op V) (s' : ost) (r : @resp V) : list write :=
   match o, r with
   | Create _, RTrial id RUNNING _ =>
       if Nat.ltb (length (trials s)) (length (trials s'))
@@ -59,13 +67,14 @@ Definition writes_of (c : cfg) (s : ost) (o : @op V) (s' : ost) (r : @resp V) : 
   | Update id _, RNone => match nth_error (disk s') id with Some d => [WTrial id d] | None => [] end
   | End id _ _, RNone =>
       match nth_error (disk s') id with
-      | Some d => [WTrial id d; WOracle (to_json (if pop_before_save then s' else with_ongoing s' (ongoing s)));
-                   WOracle (to_json s'); WTuner]
+      | Some d => [WTrial id d; WOracle (to_json (with_ongoing s' (ongoing s))); WOracle (to_json s'); WTuner]
       | None => []
       end
   | End id _ _, RAbort =>
-      if abort_early c then []
-      else match nth_error (disk s') id with Some d => [WTrial id d; WOracle (to_json s')] | None => [] end
+      match nth_error (disk s') id with
+      | Some d => [WTrial id d; WOracle (to_json (with_ongoing s' (ongoing s)))]
+      | None => []
+      end
   | _, _ => []
   end.
 
@@ -74,25 +83,37 @@ Fixpoint all_writes (c : cfg) (s : ost) (ops : list (@op V)) : list write :=
   | [] => []
   | o :: rest =>
       let '(s', r) := step vdef score_fn populate hook_end hook_end_abort hook_reload reissue c s o in
-      writes_of c s o s' r ++ all_writes c s' rest
+      writes_of s o s' r ++ all_writes c s' rest
   end.
+(* BaseTuner.search saves once before the loop *)
+Definition search_writes (c : cfg) (a0 : A) (ops : list (@op V)) : list write :=
+  [WOracle (to_json (init a0)); WTuner] ++ all_writes c (init a0) ops.
 
-(* what a restarted process rebuilds (pinned source): reload only if the tuner file exists *)
+(* ---- what a restarted process rebuilds ---------------------------------------------------------------------- *)
 Fixpoint mapi {X Y} (f : nat -> X -> Y) (i : nat) (l : list X) : list Y :=
   match l with [] => [] | x :: r => f i x :: mapi f (S i) r end.
+Definition dfinal (d : dtrial) : bool := match d_status d with COMPLETED | FAILED => true | _ => false end.
 
-Definition recover (a0 : A) (d : dstate) : option ost :=
+Definition requeued (files : list dtrial) (j : ojson) : list tid :=
+  filter (fun id => match nth_error files id with
+                    | Some d => negb (dfinal d) && negb (existsb (Nat.eqb id) (j_retryq j))
+                    | None => false end)
+         (map snd (j_ongoing j)).
+
+Definition recover (d : dstate) : option ost :=
   if negb (ds_tuner d) then None          (* no reload: a fresh search over the same directory *)
   else match ds_oracle d with
        | None => None
        | Some j =>
+           let files := firstn (length (j_start j)) (ds_trials d) in     (* leftovers of an unfinished create are ignored *)
            Some {| trials := mapi (fun i dt => {| t_status := d_status dt; t_score := d_score dt;
-                                                   t_runs := nth i (j_runs j) 0; t_data := d_data dt |}) 0 (ds_trials d);
+                                                   t_runs := nth i (j_runs j) 0; t_data := d_data dt |}) 0 files;
                    ongoing := []; start_order := j_start j; end_order := j_end j;
-                   retryq := j_retryq j ++ map snd (j_ongoing j); tuner_ids := [];
-                   algo := hook_reload (j_algo j); disk := ds_trials d |}
+                   retryq := j_retryq j ++ requeued files j; tuner_ids := [];
+                   algo := hook_reload (j_algo j); disk := files |}
        end.
 
-Definition crash_at (c : cfg) (a0 : A) (ops : list (@op V)) (k : nat) : option ost :=
-  recover a0 (fold_left apply_write (firstn k (all_writes c (init a0) ops)) {| ds_trials := []; ds_oracle := None; ds_tuner := false |}).
+Definition crash_image (c : cfg) (a0 : A) (ops : list (@op V)) (k : nat) : dstate :=
+  fold_left apply_write (firstn k (search_writes c a0 ops)) empty_dir.
+Definition crash_at (c : cfg) (a0 : A) (ops : list (@op V)) (k : nat) : option ost := recover (crash_image c a0 ops k).
 End Crash.
